@@ -82,9 +82,9 @@ class ValDriver(Harness):
         rv, hs = self.p.find(self.s, [])
         return len(hs)
 
-    def template(self, kind, label, extra=()):
+    def template(self, kind, label, extra=(), private=True):
         kt, n = KINDS[kind]
-        return [(K.CKA_CLASS, K.CKO_SECRET_KEY), (K.CKA_KEY_TYPE, kt), (K.CKA_TOKEN, True), (K.CKA_PRIVATE, True),
+        return [(K.CKA_CLASS, K.CKO_SECRET_KEY), (K.CKA_KEY_TYPE, kt), (K.CKA_TOKEN, True), (K.CKA_PRIVATE, bool(private)),
                 (K.CKA_SENSITIVE, False), (K.CKA_EXTRACTABLE, True), (K.CKA_LABEL, label), (K.CKA_ENCRYPT, True),
                 (K.CKA_DECRYPT, True), (K.CKA_SIGN, True), (K.CKA_VERIFY, True), (K.CKA_WRAP, True), (K.CKA_UNWRAP, True),
                 (K.CKA_DERIVE, True)] + list(extra)
@@ -97,9 +97,16 @@ class ValDriver(Harness):
         kcv = d.get(K.CKA_CHECK_VALUE) if rv == 0 else None
         return val, kcv
 
+    RSA_PARTS = (("n", K.CKA_MODULUS), ("d", K.CKA_PRIVATE_EXPONENT), ("e", K.CKA_PUBLIC_EXPONENT), ("p", K.CKA_PRIME_1),
+                 ("q", K.CKA_PRIME_2), ("dp", K.CKA_EXPONENT_1), ("dq", K.CKA_EXPONENT_2), ("qi", K.CKA_COEFFICIENT))
+
     def rsa_value(self, priv):
-        rv, d = self.p.get_attrs(self.s, priv, [K.CKA_MODULUS, K.CKA_PRIVATE_EXPONENT])
-        return (d.get(K.CKA_MODULUS) or b"") + (d.get(K.CKA_PRIVATE_EXPONENT) or b"") if rv == 0 else None
+        """every component of the private key, in a fixed order (the reference value: rsa_ref)"""
+        rv, d = self.p.get_attrs(self.s, priv, [a for _, a in self.RSA_PARTS])
+        return b"|".join((d.get(a) or b"").lstrip(b"\x00") for _, a in self.RSA_PARTS) if rv == 0 else None
+
+    def rsa_ref(self):
+        return b"|".join(TK.RSA1024[n].lstrip(b"\x00") for n, _ in self.RSA_PARTS)
 
     def keyinfo(self, g, kind):
         val, kcv = self.read(g, kind)
@@ -162,7 +169,7 @@ class ValDriver(Harness):
                                             (K.CKA_EXPONENT_1, r["dp"]), (K.CKA_EXPONENT_2, r["dq"]), (K.CKA_COEFFICIENT, r["qi"]),
                                             (K.CKA_DECRYPT, True), (K.CKA_SIGN, True), (K.CKA_UNWRAP, True),
                                             (K.CKA_SENSITIVE, False), (K.CKA_EXTRACTABLE, True)] + xu)
-            ev = dict(e="Import", kind=kind, i=i, rv=rvname(rv or rv2), k=0, v="", ref=h(r["n"] + r["d"]), kcv="", kcvref="")
+            ev = dict(e="Import", kind=kind, i=i, rv=rvname(rv or rv2), k=0, v="", ref=h(self.rsa_ref()), kcv="", kcvref="")
             if not (rv or rv2):
                 self.nk += 1
                 self.keys[self.nk] = dict(h=(pub, priv), kind=kind, val=R.pkcs8_rsa(rsa_ints()))
@@ -304,7 +311,9 @@ class ValDriver(Harness):
         if m == "KW" and KINDS[kind][1] % 8:
             kind = "gen24"
         before = self.count()
-        t = self.priv_template(b"unwrapped") if kind == "rsa" else self.template(kind, b"unwrapped")
+        # (the value of a key does not depend on CKA_PRIVATE: the keys the library makes are private and public in turn)
+        pv = self.nk % 2 == 0
+        t = self.priv_template(b"unwrapped", pv) if kind == "rsa" else self.template(kind, b"unwrapped", private=pv)
         if kind != "rsa":
             # what the caller's template says about CKA_ENCRYPT
             t = [x for x in t if x[0] != K.CKA_ENCRYPT] + ([] if e == "absent" else [(K.CKA_ENCRYPT, e == "T")])
@@ -325,8 +334,8 @@ class ValDriver(Harness):
                       enc="absent" if enc is None else ("T" if enc == b"\x01" else "F"))
         return ev
 
-    def priv_template(self, label):
-        return [(K.CKA_CLASS, K.CKO_PRIVATE_KEY), (K.CKA_KEY_TYPE, K.CKK_RSA), (K.CKA_TOKEN, True), (K.CKA_PRIVATE, True),
+    def priv_template(self, label, private=True):
+        return [(K.CKA_CLASS, K.CKO_PRIVATE_KEY), (K.CKA_KEY_TYPE, K.CKK_RSA), (K.CKA_TOKEN, True), (K.CKA_PRIVATE, bool(private)),
                 (K.CKA_SENSITIVE, False), (K.CKA_EXTRACTABLE, True), (K.CKA_LABEL, label), (K.CKA_DECRYPT, True),
                 (K.CKA_SIGN, True), (K.CKA_UNWRAP, True)]
 
@@ -369,7 +378,7 @@ class ValDriver(Harness):
             mech = Mech(K.CKM_CONCATENATE_DATA_AND_BASE, p11.keyderiv_string(data))
             full = (data + kb["val"]) if kb["val"] else None
         kt, n = KINDS[kind]
-        t = self.template(kind, b"derived")
+        t = self.template(kind, b"derived", private=(self.nk % 2 == 0))
         if kt != K.CKK_DES3:
             t.append((K.CKA_VALUE_LEN, n))
         before = self.count()
